@@ -224,11 +224,21 @@ def make_int_schedule(M, k, mode):
         for i in range(M - 1):
             ctx.assume(Ls[i] <= Ls[i + 1])
         seen = []
+
+        class _Stop(Exception):
+            pass
+
+        def grab(x):
+            seen.append(x)
+            raise _Stop()   # the schedule has been observed; the quadrature itself is decided by the state units
         if ctx.mode == "sym":
-            _symnp.HOOKS["cumsum"] = seen.append
+            _symnp.HOOKS["cumsum"] = grab
         try:
             samples = np.array(Ls, dtype=object if ctx.mode == "sym" else float)
-            logZ, lw = compute_weights(samples, k, expectation=mode)
+            try:
+                logZ, lw = compute_weights(samples, k, expectation=mode)
+            except _Stop:
+                pass
         finally:
             _symnp.HOOKS.pop("cumsum", None)
         sched = [float(k)] * (M - k) + [float(j) for j in range(k, 0, -1)]
